@@ -33,7 +33,8 @@ def _fail_to_violation(stream, v, ops, rep):
     for p in parts:
         if p.startswith("class="):
             cls = p[6:]
-    fp = "%s:%s" % (clause, cls)
+    # a classified input class is the fingerprint by itself (same defect whatever the direction / listener)
+    fp = cls if cls != "other" else "%s:%s" % (clause, cls)
     what = ("generated RBAC and AuthorizationPolicy semantics disagree (%s, input class %s): %s"
             % (clause, cls, " ".join(parts[2:6])))
     return (fp, what, {"stream": stream, "ops": ops, "oracle_verdict": v, "correspondence": rep})
@@ -47,8 +48,30 @@ def oracle(ctx, stream, case_lines, rep):
         f.write("\n".join(case_lines) + "\n")
     cands.append(p)
     g = os.path.join(ctx.work, "%s.gen.ops" % stream)
-    if os.path.exists(g):
+    if os.path.exists(g) and stream != "compile":
         cands.append(g)
+    elif os.path.exists(g):
+        # structural stream: turn the validator-accepted cases on which model and implementation differ
+        # into request-level searches (the harness derives requests from the policy constants)
+        impl = os.path.join(ctx.work, "compile.run.impl")
+        model = os.path.join(ctx.work, "compile.run.model")
+        if os.path.exists(impl) and os.path.exists(model):
+            lo, li, lm = ctx.read_lines(g), ctx.read_lines(impl), ctx.read_lines(model)
+            if len(li) == len(lo) and len(lm) == len(lo):
+                picked, k = [], 0
+                for c in _cases(lo):
+                    seg = range(k, k + len(c))
+                    k += len(c)
+                    if c[0].endswith("valid=1") and any(li[j] != lm[j] for j in seg):
+                        picked.append(c)
+                        if len(picked) >= 40:
+                            break
+                if picked:
+                    d = os.path.join(ctx.work, "compile.differing.ops")
+                    with open(d, "w") as f:
+                        for c in picked:
+                            f.write("\n".join(c) + "\n")
+                    cands.append(d)
     for ops in cands:
         out = ops + ".verdict"
         rc, log = ctx.harness("oracle", stream, ops, out)
